@@ -430,6 +430,10 @@ def registry():
                         "cache; same load outcome, termination, fault, registers, output and exit code; a text whose uncached run "
                         "performs a word-crossing access must be rejected with the cache on.")
     reg["C03"].components_real = reg["C03"].components_real + LIFE_REAL[:3]
+    reg["C12"].batches += [P.Programs("pipe-dcache", 15000, 250000, force={"dc_on": True, "ic_on": False})]
+    reg["C12"].rule += (" pipesim batch pipe-dcache: the histories that programs issue - at the end of every program, in each pipeline mode, "
+                        "backing memory and resident blocks of the run with the cache against the flat memory of the run without it.")
+    reg["C12"].components_real = reg["C12"].components_real + PIPE_REAL
     reg["C11"].batches += [L.TextPairs("asm-ic-onoff", "ic", 4000, 70000)]
     reg["C11"].rule += (" lifesim batch asm-ic-onoff: generated assembler texts through the real assembler into a simulation without "
                         "and one with the instruction cache (same mode): same load outcome, termination, fault, registers, memory, "
